@@ -232,14 +232,23 @@ def _run(prop, tier, seed, args, t0):
 
     # 1. translation (tie T)
     targets = getattr(mod, 'TARGETS', [])
+    # FOREIGN_TARGETS (optional): targets OWNED BY ANOTHER PROPERTY whose generated definitions this property's model
+    # consumes.  They are regenerated like the own ones (so the proofs speak about the current source), but a selector
+    # that no longer finds its block is the owner's alarm: here it is recorded in the evidence, not counted as a broken tie
+    # (the last good generated file stays in place).
+    foreign = [t for t in getattr(mod, 'FOREIGN_TARGETS', []) if t not in targets]
     trans_info = {}
-    if targets:
+    if targets or foreign:
         sys.path.insert(0, os.path.join(VERIF_ROOT, 'translate'))
         import py2lean
         with lean_bridge.BuildLock():
-            trans_info = py2lean.regenerate(targets, hd_env.HD_REPO)
+            trans_info = py2lean.regenerate(list(targets) + foreign, hd_env.HD_REPO)
         for t, info in trans_info.items():
             if not info['ok']:
+                if t in foreign:
+                    stages.setdefault('foreign_targets_broken', []).append(f'{t}: {info.get("error", "")[:200]}')
+                    print(f'FOREIGN-TARGET-BROKEN target={t} (alarm of its owner, not of {prop}) {info.get("error", "")[:200]}')
+                    continue
                 broken.append(f'translation:{t}:{info.get("error", "")[:200]}')
                 print(f'TRANSLATION-BROKEN target={t} {info.get("error", "")[:300]}')
     stages['translation'] = {t: {k: v for k, v in i.items() if k != 'lean'} for t, i in trans_info.items()}
